@@ -34,3 +34,8 @@ SHARDS.update({
     "urwid/vterm.py:TermCanvas.remove_chars": (4, 4),
     "urwid/vterm.py:TermCanvas.erase": (6, 4),
 })
+
+# Solver-strategy flags per contract file (no semantic content).
+MODULE_FLAGS = {
+    "contracts.C15_vterm": {"qf_forall_only": True},
+}
